@@ -25,7 +25,9 @@ pub broadcast axiom fn axiom_maps_str_key<V>(m: Map<String, V>, q: &str, v: V)
     ensures #[trigger] vstd::std_specs::hash::maps_borrowed_key_to_value::<String, V, str>(m, q, v) == (m.contains_key(string_of(q@)) && m[string_of(q@)] == v);
 pub broadcast axiom fn axiom_removed_str_key<V>(m1: Map<String, V>, m2: Map<String, V>, q: &str)
     ensures #[trigger] vstd::std_specs::hash::borrowed_key_removed::<String, V, str>(m1, m2, q) == (m2 == m1.remove(string_of(q@)));
-pub broadcast group group_c16_keys { axiom_streamid_cmp, axiom_string_key_model, axiom_string_of_view, axiom_view_string_of, axiom_contains_str_key, axiom_maps_str_key, axiom_removed_str_key }
+pub broadcast axiom fn axiom_updated_str_key<V>(m1: Map<String, V>, m2: Map<String, V>, q: &str, v: V)
+    ensures #[trigger] super::borrowed_key_updated::<String, V, str>(m1, m2, q, v) == (m2 == m1.insert(string_of(q@), v));
+pub broadcast group group_c16_keys { axiom_updated_str_key, axiom_streamid_cmp, axiom_string_key_model, axiom_string_of_view, axiom_view_string_of, axiom_contains_str_key, axiom_maps_str_key, axiom_removed_str_key }
 }
 }
 pub use c16_keys::*;
